@@ -168,6 +168,7 @@ type World struct {
 	faults  map[int]Fault
 	logbuf  *countWriter
 	exByKey map[any]int
+	reqObj  map[int]*http.Request // request objects by step (for SameObj)
 
 	// controlled scheduling (C16 A)
 	controlled atomic.Bool
@@ -1189,6 +1190,19 @@ func (w *World) doReqMode(rt http.RoundTripper, step int, rq *Req, concurrent bo
 	}
 	if rq.EmptyMethod {
 		req.Method = ""
+	}
+	if rq.SameObj > 0 && !concurrent {
+		if prev := w.reqObj[rq.SameObj-1]; prev != nil {
+			req = prev.WithContext(ctx) // shares the header map and URL with the earlier use
+		}
+	}
+	if !concurrent {
+		w.mu.Lock()
+		if w.reqObj == nil {
+			w.reqObj = map[int]*http.Request{}
+		}
+		w.reqObj[step] = req
+		w.mu.Unlock()
 	}
 	ex.req = req
 	ex.reqSnap = snapReq(req)
